@@ -15,7 +15,7 @@ OPS = {"KW_EQ", "KW_GT", "KW_LT", "KW_GE", "KW_LE", "KW_NE", "KW_IN", "KW_NOT_IN
 LITS = {"NON_NEG_FLOAT", "NON_NEG_INTEGER", "STRING_LITERAL", "MINUS"}
 
 
-ALLP = ("C02", "C05", "C06", "C07", "C08", "C12", "C13", "C15")
+ALLP = ("C02", "C05", "C06", "C07", "C08", "C09", "C12", "C13", "C15")
 
 
 def tags_for(name):
@@ -125,7 +125,7 @@ def lexer_obls(T, ctx, tag=""):
     k = al.k
     ctx.notes.append("rxvc alphabet: %(classes)d classes from %(sets)d character sets; product interpreter %(python)s, Unicode %(unicode)s" % T.alpha_info)
     states = T.dump["states"]
-    allp = ("C02", "C05", "C06", "C07", "C08", "C12", "C13", "C15")
+    allp = ALLP
     out.append(Obl("xcheck:lexer/character-set-semantics-vs-re", fn_main, "xcheck", "rxvc's reading of every character set agrees with the real `re` on class representatives + sampled code points",
                    status=DISCHARGED if not T.alpha_xcheck["mismatches"] else ERROR, backend="native-bounded", bounded=True,
                    detail=str(T.alpha_xcheck), props=allp, meta={"coverage": {"evaluations": T.alpha_xcheck["checked"]}}))
@@ -379,4 +379,4 @@ def bounded_lex(ctx, T):
     extra = [bounded_obl("bounded:lexer/trivia-variants-same-AST", LEXFN + "ExperimentLexer", "inserting whitespace / comments at token boundaries leaves parse_source's AST unchanged",
                          ("C08",), run_trivia)]
     return extra + [bounded_obl("bounded:lexer/tokenize-vs-Lex_ref", LEXFN + "ExperimentLexer", "real tokenize == documented scanner (token types, values, rejection) on all short strings",
-                        ("C02", "C05", "C06", "C07", "C08", "C12", "C13", "C15"), run)]
+                        ALLP, run)]
